@@ -2,6 +2,7 @@ package webbridge
 
 import (
 	"context"
+	"encoding/binary"
 	"errors"
 	"fmt"
 	"io"
@@ -9,6 +10,7 @@ import (
 	"strings"
 	"sync"
 	"sync/atomic"
+	"time"
 	"unicode/utf8"
 
 	"github.com/lxzan/gws"
@@ -172,12 +174,35 @@ func (b *TranscodedWebSocketBridge) ServeHTTP(unwrappedRW http.ResponseWriter, r
 
 	logger.Debug("WebSocket stream forwarding done", "error", err)
 
-	// Close the WebSocket and notify ReadLoop() to stop processing OnMessage, if it hasn't already.
+	// Start the closing handshake and notify ReadLoop() to stop processing OnMessage, if it hasn't already.
+	// The connection itself is closed by ReadLoop() once the client has answered, or by the deferred Close().
 	code, reason := websocketError(err)
-	socket.WriteClose(code, []byte(closeReason(reason)))
+	closeGracefully(socket, code, []byte(closeReason(reason)))
 
 	close(stream.done) // this allows OnMessage to instantly exit
-	wg.Wait()          // just a safety measure to avoid leaks
+	wg.Wait()          // waits for the client's side of the closing handshake, for at most wsCloseTimeout
+}
+
+// wsCloseTimeout bounds the closing handshake of a WebSocket: how long the bridge keeps reading from a client
+// which doesn't answer the close frame (or the final writes to a client which doesn't read) before giving up.
+const wsCloseTimeout = 3 * time.Second
+
+// closeGracefully sends the close frame without closing the underlying connection, unlike gws.Conn.WriteClose.
+// Closing a TCP connection while it still has unread input (messages the client sent which nobody is going to handle anymore)
+// resets it, and the client then loses everything it hasn't received yet, including the last messages, the trailers and the close frame.
+// Instead, ReadLoop() must keep running: it discards whatever else the client has sent, answers the client's close frame
+// and closes the connection, or fails with a timeout once the deadline set here expires.
+func closeGracefully(socket *gws.Conn, code uint16, reason []byte) {
+	_ = socket.NetConn().SetDeadline(time.Now().Add(wsCloseTimeout))
+
+	payload := binary.BigEndian.AppendUint16(make([]byte, 0, 2+len(reason)), code)
+	payload = append(payload, reason...)
+	if len(payload) > 2+maxCloseReasonLen {
+		payload = payload[:2+maxCloseReasonLen] // control frames are limited to 125 bytes
+	}
+
+	// NB: a close frame written this way doesn't mark the connection as closed for gws, so ReadLoop() continues.
+	_ = socket.WriteMessage(gws.OpcodeCloseConnection, payload)
 }
 
 func websocketError(err error) (code uint16, reason string) {
